@@ -30,7 +30,8 @@ def assemble(prop, verdict, runs, owns, tlc_props, rule, assumptions, need):
         cmds.append(r.res.cmd)
         models.append({"config": r.cfg, "states": r.res.distinct, "generated": r.res.generated,
                        "exported": r.stats["exported"], "replayed": r.stats["replayed"], "stride": r.stride})
-    if replayed and truncated > 0.10 * replayed:
+    if replayed and truncated > 0.10 * replayed and not verdict.violations:
+        # (with a violation on record the divergence is explained and reported; without one the harness verified nothing)
         raise core.MachineryError("vacuity: %d of %d replays truncated by an earlier divergence" % (truncated, replayed))
     for n in need:
         if not per_action.get(n):
